@@ -470,8 +470,22 @@ def shard(ctx: Ctx) -> None:
         gens = list(msggen.boundary_messages(w, rng))
         n_rand = 400 if ctx.thorough else 40
         gens += [(f"random-{k}", msggen.random_message(w, rng)) for k in range(n_rand)]
+        # newer firmware: the same messages carrying fields this client's api.proto does not know yet (a varint and a length-delimited one with
+        # high field numbers) - still valid wire messages, converted as if the extras were not there
+        extras = []
+        for k, (label, msg) in enumerate(gens):
+            if k % 4 == 1:
+                try:
+                    m2 = w()
+                    m2.ParseFromString(msg.SerializeToString() + b"\xe0\x76\x2a" + b"\xea\x76\x03abc")
+                    extras.append((label + "+unknown-fields", m2))
+                except Exception as e:  # noqa: BLE001
+                    res.inconclusive.append(f"C14: could not build {w.__name__} with unknown fields: {e!r}")
+        gens += extras
         for label, msg in gens:
             res.evaluations += 1
+            if label.endswith("+unknown-fields"):
+                res.count("conversions_compared/with-unknown-fields")
             found = compare_model(ctx, conv, w, m, msg, label)
             res.sig(w.__name__, label.split("=")[0], label[-12:])
             for key, what in found[:3]:
